@@ -73,6 +73,7 @@ type script struct {
 	gSer   uint16 // terminal serial of the good session
 	gPlat  uint16 // platform serial the next answer must carry
 	gFirst []byte // header source (first message) of the attachment good session: bcd
+	expX   string         // what must finally be on disk at the X: path ("0": NOT the hostile content)
 	expV   string         // the file the good upload must have left on disk (v=1)
 	expK   map[int]string // what must happen to a hostile connection (prefix of its status), where the property says so
 }
@@ -228,6 +229,11 @@ func run(c *Ctx, s *script) {
 				Input: req, Observed: fmt.Sprintf("k%d=%s", k, Trunc(got, 300)), Required: fmt.Sprintf("k%d=%s (every claimant of a key held by a live session is ended, the session stays registered)", k, want)})
 			break
 		}
+	}
+	if s.expX != "" && field(ans, "x") != s.expX {
+		c.Violate(Violation{Signature: sig + "/same-phone-overwrite",
+			What:  "a second connection that presents the terminal number and file name of a finished upload replaced the stored file of that upload with its own content",
+			Input: req, Observed: "x=" + field(ans, "x") + " (the file now holds the second connection's bytes)", Required: "x=" + s.expX + " (the first upload's file is untouched)"})
 	}
 	if s.expV != "" && field(ans, "v") != s.expV {
 		c.Violate(Violation{Signature: sig + "/good-file/" + s.class,
@@ -894,6 +900,66 @@ func genAtt(c *Ctx, budget time.Duration) {
 			}
 			finish(d, s)
 		}
+		// the well-behaved upload streams its file info, chunks and completion report from its own goroutine WHILE the
+		// hostile connection acts
+		for hi, hostile := range [][][]byte{{f1210, f1212}, {RandBody(rng, 300)}, {Chunk(d, []byte("nobody"), 0, []byte{1, 2, 3})}, {f1210, ChunkHead(d, name, 0, 0xffffffff), RandBody(rng, 200)}} {
+			if !left() {
+				return
+			}
+			s := newScript(d, "concurrent-good")
+			s.gSer++
+			p1 := Frame808(0x1211, s.g2019, s.gBcd, s.gSer, Body1211(gname, 0, uint32(len(gdata))))
+			w1 := Frame808(0x8001, s.g2019, s.gBcd, s.gPlat, general(s.gSer, 0x1211, 0))
+			s.gPlat++
+			s.gSer++
+			p4 := Frame808(0x1212, s.g2019, s.gBcd, s.gSer, Body1211(gname, 0, uint32(len(gdata))))
+			rb := append([]byte{byte(len(gname))}, gname...)
+			w4 := Frame808(0x9212, s.g2019, s.gBcd, s.gPlat, append(rb, 0, 0, 0))
+			s.gPlat++
+			s.toks = append(s.toks, "C:"+Hx(p1)+","+Hx(Chunk(d, gname, 4, gdata[4:]))+","+Hx(Chunk(d, gname, 0, gdata[:4]))+","+Hx(p4))
+			s.expG = append(s.expG, Hx(append(append([]byte{}, w1...), w4...)))
+			k := s.hostile()
+			s.O(k)
+			for _, seg := range hostile {
+				s.D(k, seg)
+			}
+			if hi%2 == 0 {
+				s.F(k)
+			} else {
+				s.R(k)
+			}
+			s.join()
+			s.acceptAtt()
+			s.toks = append(s.toks, "V:"+Hx([]byte("./"+fmt.Sprintf("%x", s.gBcd)+"/"+string(gname)))+":"+Hx(gdata))
+			s.expV = "1"
+			run(c, s)
+		}
+		// the attachment server has no registry: a second connection presenting the terminal number AND file name of a
+		// finished upload stores its own bytes over that upload's file (finding C10/att/same-phone-overwrite)
+		if d == 1 || !c.Quick() {
+			s := newScript(d, "same-phone-overwrite")
+			s.goodAtt(d, 0x1211, Body1211(gname, 0, uint32(len(gdata))),
+				func(ser uint16) (uint16, []byte) { return 0x8001, general(ser, 0x1211, 0) })
+			s.toks = append(s.toks, "S:"+Hx(Chunk(d, gname, 0, gdata)))
+			s.goodAtt(d, 0x1212, Body1211(gname, 0, uint32(len(gdata))),
+				func(ser uint16) (uint16, []byte) {
+					return 0x9212, append(append([]byte{byte(len(gname))}, gname...), 0, 0, 0)
+				})
+			path := Hx([]byte("./" + fmt.Sprintf("%x", s.gBcd) + "/" + string(gname)))
+			s.toks = append(s.toks, "V:"+path+":"+Hx(gdata))
+			s.expV = "1"
+			evil := []byte{0xde, 0xad, 0xbe, 0xef, 0x66}
+			k := s.hostile()
+			s.O(k)
+			s.D(k, Frame808(0x1210, s.g2019, s.gBcd, 1, Body1210(d, pre, 0, -1, []AttItem{{Name: gname, Size: uint32(len(evil))}})))
+			s.D(k, Chunk(d, gname, 0, evil))
+			s.D(k, Frame808(0x1212, s.g2019, s.gBcd, 2, Body1211(gname, 0, uint32(len(evil)))))
+			s.F(k)
+			s.toks = append(s.toks, "W", "X:"+path+":"+Hx(evil))
+			s.expX = "0"
+			s.acceptAtt()
+			run(c, s)
+		}
 		// mutated uploads
 		nMut := 12
 		if !c.Quick() {
@@ -947,7 +1013,7 @@ func c10(c *Ctx) {
 	ContainDir = filepath.Join(c.Out, "contain")
 	os.MkdirAll(ContainDir, 0o755)
 	defer C10StopChildren()
-	b808, batt := 40*time.Second, 30*time.Second
+	b808, batt := 40*time.Second, 40*time.Second
 	if !c.Quick() {
 		b808, batt = 20*time.Minute, 15*time.Minute
 	}
@@ -967,8 +1033,24 @@ func c10(c *Ctx) {
 		c.Dist[kind+"/transient-retry"] += n
 	}
 	c.Extra["transient_retries"] = C10Transients
+	total := 0
+	for _, n := range C10Transients {
+		total += n
+	}
+	if total > 10 {
+		c.Violate(Violation{Signature: "C10/transient-excess", What: "more than 10 scripts had to be played again because a connection was reset without the bytes sent explaining it",
+			Input: "-", Observed: fmt.Sprint(C10Transients), Required: "at most 10 replays per run"})
+	}
+	if total > 0 || len(C10LateAnswers) > 0 {
+		c.Extra["NOTE"] = fmt.Sprintf("replayed scripts (unexplained reset / failed dial): %v; answers that needed the long wait: %v", C10Transients, C10LateAnswers)
+	}
+	for kind, n := range C10LateAnswers {
+		c.Dist[kind+"/late-answer"] += n
+	}
+	if os.Getenv("VERIF_C10_ONLY") == "" {
+		memory808(c) // 2 s: the finding is reproduced in every tier
+	}
 	if !c.Quick() && os.Getenv("VERIF_C10_ONLY") == "" {
-		memory808(c)
 		buffers(c)
 		descriptors(c)
 	}
@@ -1021,7 +1103,7 @@ func descriptors(c *Ctx) {
 	}
 }
 
-// memory808 (thorough tier only): the resource side the model does not see.  A fresh server under an
+// memory808 (every tier): the resource side the model does not see.  A fresh server under an
 // address-space limit of 4 GiB (ulimit -v) is first shown to serve 50 "packet 1 of 65535" frames, then is
 // sent 6000 of them (126 KB): completePack allocates a 65535-slot table per message id and keeps it for 60 s.
 func memory808(c *Ctx) {
@@ -1081,17 +1163,18 @@ func gen808ParseAll(c *Ctx, budget time.Duration) {
 			if time.Since(start) > budget {
 				return
 			}
-			v := (len(body)+int(id))%2 == 0
-			s := &script{kind: "808", param: "1", class: "parse-all"}
-			s.good808()
-			k := s.hostile()
-			bcd := nextPhone(v)
-			s.O(k)
-			s.D(k, Frame808(id, v, bcd, 2, body))
-			s.probe(k, v, bcd)
-			s.good808()
-			s.accept808()
-			run(c, s)
+			for _, v := range []bool{false, true} {
+				s := &script{kind: "808", param: "1", class: "parse-all"}
+				s.good808()
+				k := s.hostile()
+				bcd := nextPhone(v)
+				s.O(k)
+				s.D(k, Frame808(id, v, bcd, 2, body))
+				s.probe(k, v, bcd)
+				s.good808()
+				s.accept808()
+				run(c, s)
+			}
 		}
 	}
 }
